@@ -1,6 +1,7 @@
 """C18, fresh-process half.  Run as:  PYTHONHASHSEED=<n> python pickle_child.py  < job.json  > result.json
 job = {"mode": "solvers", cls, cfg, prefix (history already run by the parent), blob (hex pickle of the list of solvers),
        suffix (history to run here)}      ->  {"fails": [[k, kind, why]], "outs": [...]}
+job = {"mode": "twin", blob, suffix}  ->  {"outs": [normalised outcome per call]}   (compared by the parent with the original's)
 job = {"mode": "exprs", blob (hex pickle of a list of ASTs)}  ->  {"structs": [...], "tables": [...]}"""
 import json, os, pickle, sys
 
@@ -26,6 +27,17 @@ def main():
         out = {"structs": [struct(a) for a in asts], "tables": [uni.values(a) for a in asts],
                "identical_to_local": [a is uni.parse(src) if src else None for a, src in zip(asts, job.get("srcs", []))]}
         json.dump(out, sys.stdout)
+        return
+    if job["mode"] == "twin":
+        # the restored tuple answers the suffix; the parent compares with what the original answered
+        solvers = pickle.loads(bytes.fromhex(job["blob"]))
+        outs = []
+        for d in job["suffix"]:
+            if d["s"] >= len(solvers):
+                outs.append(["skip"])
+                continue
+            outs.append(L._norm_out(d, L.apply_op(uni, solvers, d)))
+        json.dump({"outs": outs}, sys.stdout)
         return
     import claripy
     cls, cfg = job["cls"], job["cfg"]
